@@ -11,7 +11,8 @@ META = {
     'technique': 'exhaustive enumeration of all preload files up to a line bound over a line alphabet, real snoopyctl, reference predicate from the statement',
     'text': 'Every file of the bounded grammar (own entry with trailing blank/tab/comment/CR, foreign entries, other libsnoopy.so paths, prefix/suffix paths, comments mentioning the library once or twice, '
             'blank lines, %-sequences, with and without final newline) is fed to the real `snoopyctl enable`; the result must be byte-identical or old+[newline]+entry+newline, refusals only when an '
-            'active line mentions another libsnoopy.so, comments never count, enable is idempotent and `status` then reports the entry.',
+            'active line mentions another libsnoopy.so, comments never count, enable is idempotent and `status` then reports the entry.'
+            ' The own entry counts wherever the dynamic loader takes it (indented, after or between other libraries); sparse files of 2^31-1..2^33 bytes; descriptors 0-2 closed.',
     'note': 'Lines with leading blanks before # and mentions inside a trailing comment of a foreign entry are outside the alphabet (the statement does not classify them).',
 }
 
